@@ -6,7 +6,8 @@
    guarantee, outside the model), every str a sequence of code points 0..0x10FFFF in which no high
    surrogate is directly followed by a low surrogate (C01_json_surrogate_pair_refuted shows that this
    restriction is necessary). *)
-From AwVerif Require Import Base.Prelude Model.Json Proofs.JsonStr Proofs.JsonNum Proofs.JsonFuel Proofs.JsonRoundtrip.
+From AwVerif Require Import Base.Prelude Model.Json Model.JsonEvent Proofs.JsonStr Proofs.JsonNum Proofs.JsonFuel Proofs.JsonRoundtrip Proofs.JsonEvent.
+From Coq Require Import Ascii.
 Open Scope Z_scope.
 
 (* what the SQL back ends do with event data: json.loads(json.dumps(data)) is data, structurally
@@ -131,3 +132,28 @@ Example C01_json_nonvacuous_loads : loads ex_text = Ok ex_value.
 Proof. vm_compute. reflexivity. Qed.
 Example C01_json_nonvacuous_ascii : forallb (fun c => (32 <=? c) && (c <=? 126)) ex_text = true.
 Proof. vm_compute. reflexivity. Qed.
+
+(* --- C13: the JSON form of an Event (to_json_dict / to_json_str, Model/JsonEvent.v) -------------------
+   {"id": .., "timestamp": isoformat text, "duration": total_seconds(), "data": data} is inside the
+   domain whatever the timestamp text is (any [list ascii], in particular j_ts of Model/EventModel.v's
+   to_json), for an id that is None or an int of at most 4300 digits, the token floatstr writes for the
+   duration, and data of the domain: json.loads(e.to_json_str()) is the dict to_json_dict built, member
+   by member, in order.  Composed with C13_json_roundtrip (Props/C13.v: Event applied to that dict is e
+   again) this is the JSON clause of C13 down to the text; what stays outside is float(repr(x)) == x for
+   the duration. *)
+Theorem C13_json_event_form_roundtrip : forall i ts tok data,
+  match i with Some n => int_ok n = true | None => True end ->
+  float_tok_ok tok = true -> wf data ->
+  loads (dumps_text (event_json_form i ts tok data)) = Ok (event_json_form i ts tok data).
+Proof. exact event_json_form_roundtrip. Qed.
+Print Assumptions C13_json_event_form_roundtrip.
+
+(* the text that Event(id=7, timestamp=2020-09-13T12:26:40.123Z, duration=1.000001 s, data with a quote, a backslash,
+   e-acute and U+1F600).to_json_str() returns, written and read by the model *)
+Example C13_json_event_form_example :
+  let data := JDict [([97; 112; 112], JStr [70; 105; 114; 101; 34; 102; 111; 120; 92]);
+                     ([116; 105; 116; 108; 101], JStr [99; 97; 102; 233; 32; 128512])] in
+  let ts := ["2"%char; "0"%char; "2"%char; "0"%char; "-"%char; "0"%char; "9"%char; "-"%char; "1"%char; "3"%char; "T"%char; "1"%char; "2"%char; ":"%char; "2"%char; "6"%char; ":"%char; "4"%char; "0"%char; "."%char; "1"%char; "2"%char; "3"%char; "0"%char; "0"%char; "0"%char; "+"%char; "0"%char; "0"%char; ":"%char; "0"%char; "0"%char] in
+  dumps (event_json_form (Some 7) ts [49; 46; 48; 48; 48; 48; 48; 49] data) = Ok [123; 34; 105; 100; 34; 58; 32; 55; 44; 32; 34; 116; 105; 109; 101; 115; 116; 97; 109; 112; 34; 58; 32; 34; 50; 48; 50; 48; 45; 48; 57; 45; 49; 51; 84; 49; 50; 58; 50; 54; 58; 52; 48; 46; 49; 50; 51; 48; 48; 48; 43; 48; 48; 58; 48; 48; 34; 44; 32; 34; 100; 117; 114; 97; 116; 105; 111; 110; 34; 58; 32; 49; 46; 48; 48; 48; 48; 48; 49; 44; 32; 34; 100; 97; 116; 97; 34; 58; 32; 123; 34; 97; 112; 112; 34; 58; 32; 34; 70; 105; 114; 101; 92; 34; 102; 111; 120; 92; 92; 34; 44; 32; 34; 116; 105; 116; 108; 101; 34; 58; 32; 34; 99; 97; 102; 92; 117; 48; 48; 101; 57; 32; 92; 117; 100; 56; 51; 100; 92; 117; 100; 101; 48; 48; 34; 125; 125] /\
+  loads [123; 34; 105; 100; 34; 58; 32; 55; 44; 32; 34; 116; 105; 109; 101; 115; 116; 97; 109; 112; 34; 58; 32; 34; 50; 48; 50; 48; 45; 48; 57; 45; 49; 51; 84; 49; 50; 58; 50; 54; 58; 52; 48; 46; 49; 50; 51; 48; 48; 48; 43; 48; 48; 58; 48; 48; 34; 44; 32; 34; 100; 117; 114; 97; 116; 105; 111; 110; 34; 58; 32; 49; 46; 48; 48; 48; 48; 48; 49; 44; 32; 34; 100; 97; 116; 97; 34; 58; 32; 123; 34; 97; 112; 112; 34; 58; 32; 34; 70; 105; 114; 101; 92; 34; 102; 111; 120; 92; 92; 34; 44; 32; 34; 116; 105; 116; 108; 101; 34; 58; 32; 34; 99; 97; 102; 92; 117; 48; 48; 101; 57; 32; 92; 117; 100; 56; 51; 100; 92; 117; 100; 101; 48; 48; 34; 125; 125] = Ok (event_json_form (Some 7) ts [49; 46; 48; 48; 48; 48; 48; 49] data).
+Proof. split; vm_compute; reflexivity. Qed.
